@@ -8,7 +8,7 @@ F = 'purl/src/format.rs'
 GROUP = dict(
     name='fmt',
     theory=['base.rs'],
-    rlimit=100,
+    rlimit=300,
     uses='use core::cmp::Ordering;\nuse core::slice;',
     canary='    axiom_string_from(); broadcast use axiom_ascii_to_lower;',
     units=[_c.PURL_FIELD, _c.PARSE_ERROR, _c.QUALIFIER_KEY, _c.QUALIFIERS, _c.PURL_PARTS,
